@@ -14,6 +14,14 @@ from ..harness import Harness
 from ..engine import Query
 import z3
 
+# FINDINGS
+#   fixed in /repo by "fix:" commit 6b07e4e (counter width): cycles_in_reset was sized for reset_length_cycles only but also
+#   times the stop phase; with stop_length_cycles > 2**width the compare never matched, the FSM stayed in
+#   DEFERRING_STARTUP and phy_stop stayed asserted forever (e.g. reset 1 / stop 2, reset 2 / stop 3, reset 4 / stop 6).
+#   Caught by assertion `stop_pulse` (phy_stop high past reset+stop cycles) and, for the trigger that is then never
+#   served, `reset_pulse`; configurations bmc_r1s2, bmc_r2s4, bmc_r3s5, bmc_r4s6 (and thorough: every pair with
+#   stop > 2**bits(reset-1)).
+
 PROP = "C54"
 ENCODED = ["luna/gateware/architecture/car.py: PHYResetController.__init__ (cycle computation) and elaborate "
            "(cycles_in_reset counter, IDLE/RESETTING/DEFERRING_STARTUP FSM, phy_reset/phy_stop)"]
@@ -25,7 +33,7 @@ ASSUMPTIONS = [
     "cycle computation audit: the class divides floats, which yields one extra cycle for some pairs (e.g. 100 MHz x 5 us "
     "-> 501); the audit accepts exact or exact+1 (a reset/STP time is a minimum) and rejects anything shorter",
 ]
-BOUNDS = "(reset, stop) in {1..6}x{1..6} cycles (quick: 10 pairs incl. stop>reset, stop<reset, equal), power_on_reset on (all pairs) and off (quick: 2 pairs; thorough: the 18 pairs with odd R+S); " \
+BOUNDS = "(reset, stop) in {1..6}x{1..6} cycles (quick: 8 pairs incl. stop>reset, stop<reset, equal), power_on_reset on (all pairs) and off (quick: 2 pairs; thorough: the 18 pairs with odd R+S); " \
          "BMC from reset K = 2*(R+S)+6 with trigger free every cycle (two complete sequences)"
 OUTSIDE = "zero-length reset or stop (ceil gives 0 cycles; the FSM has no zero-length path); lengths above 6 cycles except the " \
           "default 120/120 configuration in the thorough tier; the separate usb3 PHYResetController in usb3/physical/power.py"
@@ -150,7 +158,7 @@ def queries(tier):
     qs = []
     quick = tier == "quick"
     if quick:
-        pairs = [(1, 1), (1, 2), (2, 1), (2, 3), (2, 4), (3, 2), (3, 5), (4, 4), (4, 6), (6, 1)]
+        pairs = [(1, 1), (1, 2), (2, 1), (2, 4), (3, 2), (3, 5), (4, 6), (6, 1)]
     else:
         pairs = [(r, s) for r in range(1, 7) for s in range(1, 7)]
     for R, S in pairs:
@@ -162,9 +170,10 @@ def queries(tier):
                             desc=f"reset {R} cycles, stop {S} cycles, power_on_reset={por}: trigger free every cycle, "
                                  "phy_reset/phy_stop against the statement's timeline"))
     f0 = lambda: ResetHarness(2, 3, True)
-    qs.append(Query("cosim_r2s3", f0, 0, kind="cosim", cosim_cycles=200 if quick else 1000))
-    f1 = lambda: ResetHarness(3, 2, False)
-    qs.append(Query("cosim_r3s2_nopor", f1, 0, kind="cosim", cosim_cycles=200 if quick else 1000))
+    qs.append(Query("cosim_r2s3", f0, 0, kind="cosim", cosim_cycles=100 if quick else 1000))
+    if not quick:
+        f1 = lambda: ResetHarness(3, 2, False)
+        qs.append(Query("cosim_r3s2_nopor", f1, 0, kind="cosim", cosim_cycles=1000))
     qs.append(Query("audit_cycle_computation", AuditHarness, 3, split=False, timeout=60,
                     desc=f"ceil(length*frequency) for {len(AUDIT_FREQS)}x{len(AUDIT_LENGTHS)} real frequency/length pairs equals "
                          "the exact decimal value or one more, never less (the class computes it in floating point)"))
